@@ -363,20 +363,43 @@ def check_h5_mutators(ctx):
                 if isinstance(t, ast.Subscript) and u(t.value) in ('values', 'bounds', 'self.values', 'self.bounds', 'group', 'self.group', 'h5file') and fi.module.name == 'gambit.sigs.hdf5':
                     found.setdefault(fi.qualname, []).append(u(t))
     rep.floor('W5', 'functions containing HDF5 mutators', len(found), 3)
+    # a helper that is not part of the reference tree (extracted writer step) may hold mutators when it is reached only from the
+    # writer functions (directly or through other such helpers), or from nowhere any more (every call was expanded in place)
+    from ..inline import known_symbols
+    known = known_symbols()
+
+    def confined(q, seen=()):
+        if q in allowed:
+            return True
+        if q in known or q in seen or q not in m.functions:
+            return False
+        callers = set()
+        for g, call in m.iter_calls(kinds=('py',)):
+            if g.qualname == q:
+                continue
+            if m.resolve_call(g, call) == q:
+                callers.add(g.qualname)
+            elif isinstance(call.func, ast.Attribute) and call.func.attr == m.functions[q].name and m.functions[q].cls is not None and g.cls is not None \
+                    and g.cls.qualname == m.functions[q].cls.qualname and isinstance(call.func.value, ast.Name) and call.func.value.id in ('self', 'cls', g.cls.node.name):
+                callers.add(g.qualname)
+        return all(confined(c, seen + (q,)) for c in callers)
+    base_allowed = set(allowed)
+    extra_ok = {q for q in found if q not in allowed and confined(q)}
+    allowed = set(allowed) | extra_ok
     for q, items in sorted(found.items()):
         fi = m.functions[q]
         rep.functions.add(q)
         rep.add('W5', fi.site(), f'{fi.name}: HDF5 mutators (create_dataset / attrs[...] = / dataset stores) occur only in the writer functions', q in allowed, expected=sorted(a.rsplit('.', 1)[1] for a in allowed), found=items[:3], stmt=f'mutators in {q}',
                 construct=q)
     # callers of the writer functions
-    callers = {a: set() for a in allowed}
+    callers = {a: set() for a in base_allowed}
     for fi, call in m.iter_calls(kinds=('py',)):
         tgt = m.resolve_call(fi, call)
         if tgt in callers:
             callers[tgt].add(fi.qualname)
     want = {'gambit.sigs.hdf5.HDF5Signatures._init_attrs': {'gambit.sigs.hdf5.HDF5Signatures.create'}, 'gambit.sigs.hdf5.HDF5Signatures._init_datasets': {'gambit.sigs.hdf5.HDF5Signatures.create'},
             'gambit.sigs.hdf5.write_metadata': {'gambit.sigs.hdf5.HDF5Signatures._init_attrs'}}
-    for a in sorted(allowed):
+    for a in sorted(base_allowed):
         rep.add('W5', m.functions[a].site(), f'{a.rsplit(".", 1)[1]} is reachable only from the create() path', callers[a] == want[a], expected=sorted(want[a]), found=sorted(callers[a]), stmt=f'callers of {a}', construct=a)
     cr = set()
     for fi, call in m.iter_calls(kinds=('py',)):
@@ -396,6 +419,8 @@ def check_h5_mutators(ctx):
 
 def check_orm(ctx):
     rep, m = ctx.rep, ctx.model
+    from ..inline import known_symbols
+    known = known_symbols()
     bad = []
     n = 0
     for fi, call in m.iter_calls(kinds=('py',)):
@@ -414,6 +439,10 @@ def check_orm(ctx):
             continue
         n += 1
         ws = [d for node, d in effects.nonlocal_writes(fi, model=m, strict=True) if not d.startswith('mutating call')]
+        if fi.cls is not None and fi.cls.qualname not in known and not any((b or '').endswith('.Base') for b in fi.cls.bases):
+            # a helper class introduced by a refactoring (not a model, not part of the reference tree): its methods keep their own state on self
+            selfname = fi.params()[0] if fi.params() else 'self'
+            ws = [d for d in ws if not (d.startswith(f'store to {selfname}.') or d.startswith(f'store to {selfname}['))]
         # ReferenceDatabase attributes are its own state; model objects must not be written
         rep.add('W6', fi.site(), f'{fi.name}: stores no attribute / item on an object it was given (model instances stay clean, nothing to flush)', not ws, expected='no parameter stores', found=ws[:3], stmt=f'stores {fi.qualname}', construct=fi.qualname)
     rep.floor('W6', 'read-side functions scanned', n, 30)
